@@ -202,6 +202,12 @@ func Spellings() []Input {
 		"\tfor _, v := range xs {\n\t\tif b {\n\t\t\t<b>{ v }</b>\n\t\t}<i>y</i>\n\t}",
 		"\t<div><span>a</span> <span>@c()</span></div>", "\t<div><span>a</span><span>@c()</span></div>", "\t<div><b>k</b><span>{ children... }</span>{ x }</div>", "\t<p>{ x }<a href=\"u\"><!-- c --></a> text</p>",
 		"\t<div><i>a</i><span if b { class=\"a\" }>x</span></div>", "\t<ul><li><b>k</b> <em><script>var a = 1;</script></em></li></ul>",
+		// component expressions that gofmt accepts as an expression but not as a statement (a function literal that is
+		// called, a composite literal), holding raw strings over several lines, at indentation 1 and 2
+		"\t@func() templ.Component {\n\t\treturn d(`l1\nl2\n  l3`)\n\t}()", "\t<div>\n\t\t@func() templ.Component {\n\t\t\treturn d(`l1\nl2`)\n\t\t}()\n\t</div>",
+		"\t<div>\n\t\t@func() templ.Component { return d(`l1\nl2`) }() {\n\t\t\t<b>k</b>\n\t\t}\n\t</div>", "\t<p>\n\t\t@[]templ.Component{d(`a\nb`)}[0]\n\t</p>",
+		// expressions that end in a line comment with the closing brace on the next line, where the generated code stays valid
+		"\t<a href={ templ.URL(x) // c\n\t}>l</a>", "\t<div style={ x // c\n\t}>t</div>", "\t<button onclick={ scr(x) // c\n\t}>b</button>", "\t<a href={ templ.URL(x) /* c */ }>l</a>",
 	} {
 		add("layout "+body, body)
 	}
